@@ -315,9 +315,10 @@ def run(run):
     # ---- stability clause (von Karman variant), auxiliary numerics on the one-step operator measured through add_row
     from harness.checks import c04
     stab = []
-    for nn, ncol in ((4, 2), (6, 2), (5, 3)) if quick else ((4, 2), (6, 2), (5, 3), (8, 2), (12, 2), (9, 4)):
+    # (the last three of each list: sizes at which n_columns nx or (n_columns + 1) nx is one more than a multiple of 128 / 256)
+    for nn, ncol in ((4, 2), (6, 2), (5, 3), (43, 3), (129, 1), (171, 2)) if quick else ((4, 2), (6, 2), (5, 3), (8, 2), (12, 2), (9, 4), (43, 3), (129, 1), (171, 2), (65, 1), (107, 2), (77, 5)):
         # the second one: same geometry, another r0; the last two: very weak turbulence (pixel / r0 = 1e-5, 1e-6)
-        for prm in (PARAMS[0], (PARAMS[0][0], PARAMS[0][1] * 2.5, PARAMS[0][2]), (0.5, 5.0e4, 20.0), (0.01, 1.0e4, 10.0),
+        for prm in ((0.25, 0.2, 30.0),) if nn > 20 else (PARAMS[0], (PARAMS[0][0], PARAMS[0][1] * 2.5, PARAMS[0][2]), (0.5, 5.0e4, 20.0), (0.01, 1.0e4, 10.0),
                     (1, 0.3, 20.0), (2, 0.5, 30.0),                                    # ... a pixel scale given as a Python int
                     (0.5, 0.2, 1.5), (1.0, 0.3, 2.0)):                                  # ... and screens wider than the outer scale
             rho, res = c04.vk_stability(ips, nn, ncol, prm)
@@ -348,13 +349,14 @@ def run(run):
         except Exception:  # noqa
             continue
         held, snaps = [], []
-        for k in range(7):
+        for k in range(7 if req > 7 else 320):          # small screens: frames held across several hundred further steps
             fr = obj.add_row() if k % 2 == 0 else obj.scrn
             if k % 2 == 1:
                 obj.add_row()
-            held.append(fr)
-            snaps.append(np.array(fr, copy=True))
-            n_held += 1
+            if k < 12 or k % 37 == 0:
+                held.append(fr)
+                snaps.append(np.array(fr, copy=True))
+                n_held += 1
         stale = [i for i, (a_, b_) in enumerate(zip(held, snaps)) if not np.array_equal(np.asarray(a_), b_)]
         if stale:
             run.violation("infinite_screen:screen-handed-out-earlier-is-overwritten", dict(variant=variant, req=req, f=f, frames_changed=stale),
